@@ -265,7 +265,7 @@ func ruleCorridor(w *World, r *Report) {
 	pos := w.Pos(f.Pos())
 	onLine := callsTo(f, func(g *ssa.Function) bool { return funcIs(g, modPath+"/shape", "GetExtendedSpatialIdsOnLine") })
 	if len(onLine) != 1 {
-		r.add("INCLUDES", fn+" / line query", pos, Violated, "expected exactly one call of shape.GetExtendedSpatialIdsOnLine")
+		r.add("INCLUDES", fn+" / line query", pos, Undecided, "expected exactly one call of shape.GetExtendedSpatialIdsOnLine")
 		return
 	}
 	lc := onLine[0]
@@ -295,7 +295,7 @@ func ruleCorridor(w *World, r *Report) {
 		}
 	})
 	if cand == nil {
-		r.add("LAYERFIT", fn+" / candidates", pos, Violated, "the candidate list is not common.Difference(GetNspatialIdsAroundVoxcels(...), line IDs)")
+		r.add("LAYERFIT", fn+" / candidates", pos, Undecided, "the candidate list was not recognised as common.Difference(GetNspatialIdsAroundVoxcels(...), line IDs)")
 		return
 	}
 	if !isLine(getN.Call.Args[0]) {
@@ -348,7 +348,11 @@ func ruleCorridor(w *World, r *Report) {
 	if okFit {
 		r.add("LAYERFIT", fn+" / layer counts", pos, Discharged, "hLayers, vLayers = max over all line voxels of FitClearanceAroundExtendedSpatialID(voxel, radius)")
 	} else {
-		r.add("LAYERFIT", fn+" / layer counts", pos, Violated, why)
+		st := Violated
+		if strings.HasPrefix(why, "expected one") || strings.Contains(why, "is not inside a loop over the line IDs") || strings.Contains(why, "do not come from one helper call") || strings.Contains(why, "are not the running maxima") || strings.Contains(why, "has no success return") {
+			st = Undecided // the construction was not recognised; nothing wrong was seen
+		}
+		r.add("LAYERFIT", fn+" / layer counts", pos, st, why)
 	}
 	// success returns: a union / concatenation of lists, possibly de-duplicated;
 	// each result variant (one per choice of the phi-merged operands) must contain
@@ -375,7 +379,17 @@ func ruleCorridor(w *World, r *Report) {
 				for _, part := range variant {
 					desc = append(desc, describeValue(part))
 				}
-				r.add("INCLUDES", key, w.Pos(ret.Pos()), Violated, "the result is not a union that contains the line IDs ("+strings.Join(desc, " + ")+")")
+				st := Violated
+				for _, part := range variant {
+					known := resolve(part) == ssa.Value(cand)
+					if ph, isPhi := resolve(part).(*ssa.Phi); isPhi && isAccumulatorPhi(ph) {
+						known = true
+					}
+					if !known {
+						st = Undecided // an operand the rule cannot see into (helper result): no verdict
+					}
+				}
+				r.add("INCLUDES", key, w.Pos(ret.Pos()), st, "the result is not a union that contains the line IDs ("+strings.Join(desc, " + ")+")")
 				continue
 			}
 			r.add("INCLUDES", key, w.Pos(ret.Pos()), Discharged, "result = union of the line IDs and the additions")
@@ -394,13 +408,13 @@ func ruleCorridor(w *World, r *Report) {
 		r.add("INCLUDES", fn+" / results", pos, Undecided, "no success return")
 	}
 	if !sawCand {
-		r.add("FILTER-SUBSET", fn+" / skipped mode", pos, Violated, "no result variant unions the unfiltered candidate list (skipped mode must return every candidate)")
+		r.add("FILTER-SUBSET", fn+" / skipped mode", pos, Undecided, "no result variant unions the unfiltered candidate list (skipped mode must return every candidate)")
 	} else {
 		r.add("FILTER-SUBSET", fn+" / skipped mode", pos, Discharged, "skipped mode returns candidates ∪ line IDs")
 	}
 	// FILTER-SUBSET on the measured list
 	if measuredList == nil {
-		r.add("FILTER-SUBSET", fn+" / measured list", pos, Violated, "no result variant is built from measured additions")
+		r.add("FILTER-SUBSET", fn+" / measured list", pos, Undecided, "no result variant is built from measured additions")
 		return
 	}
 	ai := appendChain(measuredList)
@@ -410,8 +424,12 @@ func ruleCorridor(w *World, r *Report) {
 			okBase = false
 		}
 	}
-	if !okBase || len(ai.Appends) == 0 {
-		r.add("FILTER-SUBSET", fn+" / measured list", pos, Violated, "the measured additions are not built from an empty list by appends")
+	if len(ai.Appends) == 0 {
+		r.add("FILTER-SUBSET", fn+" / measured list", pos, Undecided, "the measured additions are not built by appends ("+describeValue(measuredList)+")")
+		return
+	}
+	if !okBase {
+		r.add("FILTER-SUBSET", fn+" / measured list", pos, Violated, "the measured additions do not start from an empty list")
 		return
 	}
 	radius := f.Params[2]
@@ -637,7 +655,8 @@ func rulePointFields(w *World, r *Report) {
 			bad = "no setter writes the field"
 		}
 		if bad != "" {
-			r.add("FIELDGUARD", key, "-", Violated, bad)
+			// not by itself wrong (a constructor may store validated values): the guard table decides validation
+			r.add("FIELDGUARD", key, "-", Undecided, bad)
 		} else {
 			r.add("FIELDGUARD", key, w.Pos(sts[0].Pos()), Discharged, fmt.Sprintf("%d store(s), all inside exported Point setters", len(sts)))
 		}
@@ -653,12 +672,8 @@ func rulePointFields(w *World, r *Report) {
 				continue
 			}
 			// latitude: phi(Floor-form, Ceil-form) selected by the sign of the parameter
-			ok, why := latTruncShape(w, g, st)
-			if ok {
-				r.add("FIELDGUARD", k2, w.Pos(st.Pos()), Discharged, why)
-			} else {
-				r.add("FIELDGUARD", k2, w.Pos(st.Pos()), Violated, why)
-			}
+			lst, why := latTruncShape(w, g, st)
+			r.add("FIELDGUARD", k2, w.Pos(st.Pos()), lst, why)
 		}
 	}
 }
@@ -680,9 +695,9 @@ func roundForm(v ssa.Value, p ssa.Value) string {
 	return calleeOf(c).Name()
 }
 
-func latTruncShape(w *World, g *ssa.Function, st *ssa.Store) (bool, string) {
+func latTruncShape(w *World, g *ssa.Function, st *ssa.Store) (Status, string) {
 	if len(g.Params) < 2 {
-		return false, "unexpected setter signature"
+		return Undecided, "unexpected setter signature"
 	}
 	p := g.Params[1]
 	stored := resolve(st.Val)
@@ -692,7 +707,7 @@ func latTruncShape(w *World, g *ssa.Function, st *ssa.Store) (bool, string) {
 	} else {
 		phi, ok := stored.(*ssa.Phi)
 		if !ok {
-			return false, "the stored latitude is neither math.Trunc(lat*K)/K nor a Floor form / Ceil form selected by the sign of the input (" + describeValue(st.Val) + ")"
+			return Undecided, "the stored latitude is neither math.Trunc(lat*K)/K nor a Floor form / Ceil form selected by the sign of the input (" + describeValue(st.Val) + ")"
 		}
 		inf := math.Inf(1)
 		for _, reg := range []struct {
@@ -702,7 +717,7 @@ func latTruncShape(w *World, g *ssa.Function, st *ssa.Store) (bool, string) {
 			c := &simCtx{e: scFor(w), f: g, sc: scenario{Kind: scRegion, Param: 1, Lo: reg.lo, Hi: reg.hi}}
 			v, uniq := phiValueUnder(g, phi, c.oracle)
 			if !uniq {
-				return false, "the rounding direction is not selected by the sign of the latitude parameter"
+				return Undecided, "the rounding direction is not selected by the sign of the latitude parameter"
 			}
 			got := roundForm(v, p)
 			if got != reg.want && got != "Trunc" {
@@ -710,7 +725,10 @@ func latTruncShape(w *World, g *ssa.Function, st *ssa.Store) (bool, string) {
 				if reg.want == "Ceil" {
 					sign = "negative"
 				}
-				return false, fmt.Sprintf("for %s latitudes the stored value is rounded with %q, %s(lat*1e10)/1e10 is required (cut toward zero)", sign, got, reg.want)
+				if got == "" {
+					return Undecided, fmt.Sprintf("for %s latitudes the rounding of the stored value was not recognised", sign)
+				}
+				return Violated, fmt.Sprintf("for %s latitudes the stored value is rounded with %q, %s(lat*1e10)/1e10 is required (cut toward zero)", sign, got, reg.want)
 			}
 		}
 		how = "Floor for positive, Ceil for negative input"
@@ -765,9 +783,9 @@ func latTruncShape(w *World, g *ssa.Function, st *ssa.Store) (bool, string) {
 		}
 	}
 	if !(absGuard || (hiGuard && loGuard)) {
-		return false, "the store is not dominated by the passing side of the limit test |stored value| <= 85.0511287798"
+		return Undecided, "the store was not seen to be dominated by the passing side of the limit test |stored value| <= 85.0511287798 (the guard table decides that out-of-range latitudes fail)"
 	}
-	return true, how + "; limit test on the stored value dominates the store"
+	return Discharged, how + "; limit test on the stored value dominates the store"
 }
 
 // ---------------------------------------------------------------- C18 projection
@@ -851,8 +869,11 @@ func ruleProjection(w *World, r *Report, fn string, forward bool) {
 	okCrs := (forward && g0 && p1) || (!forward && p0 && g1)
 	if okCrs {
 		r.add("CRS-ARGS", fn+" / direction", w.Pos(maker.Pos()), Discharged, map[bool]string{true: "EPSG:4326 -> requested CRS", false: "requested CRS -> EPSG:4326"}[forward])
-	} else {
+	} else if (g0 || p0) && (g1 || p1) {
+		// both codes recognised, wrong way round or the same code twice
 		r.add("CRS-ARGS", fn+" / direction", w.Pos(maker.Pos()), Violated, "the transform is not built from (Code(consts.GeoCrs), Code(projectedCrs)) in the documented direction")
+	} else {
+		r.add("CRS-ARGS", fn+" / direction", w.Pos(maker.Pos()), Undecided, "the two CRS codes handed to the transform were not both recognised")
 	}
 	// error handling of the transform
 	ee := extractOf(tcall, 3)
